@@ -20,6 +20,7 @@ import (
 	"time"
 
 	"github.com/btcsuite/btcd/btcutil/v2"
+	"github.com/btcsuite/btcd/btcutil/v2/gcs"
 	"github.com/btcsuite/btcd/chainhash/v2"
 	"github.com/btcsuite/btcwallet/walletdb"
 	"github.com/lightninglabs/neutrino"
@@ -28,18 +29,42 @@ import (
 
 type racingDB struct {
 	walletdb.DB
-	mu    sync.Mutex
-	armed func()
-	ran   bool
+	mu      sync.Mutex
+	armed   func()
+	ran     bool
+	inFetch int // FilterDB.FetchFilter calls in progress (markingFDB)
 }
 
-// View runs the read transaction and, if a hook is armed, the hook right
-// after the transaction has ended (once).
+// markingFDB tells the racingDB which read transactions are those of
+// FilterDB.FetchFilter (the header stores read through the same walletdb,
+// e.g. when GetCFilter checks a local filter against the committed headers).
+type markingFDB struct {
+	filterdb.FilterDatabase
+	rdb *racingDB
+}
+
+func (m *markingFDB) FetchFilter(h *chainhash.Hash, t filterdb.FilterType) (*gcs.Filter, error) {
+	m.rdb.mu.Lock()
+	m.rdb.inFetch++
+	m.rdb.mu.Unlock()
+	defer func() {
+		m.rdb.mu.Lock()
+		m.rdb.inFetch--
+		m.rdb.mu.Unlock()
+	}()
+	return m.FilterDatabase.FetchFilter(h, t)
+}
+
+// View runs the read transaction and, if a hook is armed and the transaction
+// is FetchFilter's, the hook right after the transaction has ended (once).
 func (d *racingDB) View(f func(tx walletdb.ReadTx) error, reset func()) error {
 	err := d.DB.View(f, reset)
 	d.mu.Lock()
-	hook := d.armed
-	d.armed = nil
+	var hook func()
+	if d.inFetch > 0 {
+		hook = d.armed
+		d.armed = nil
+	}
 	d.mu.Unlock()
 	if hook != nil {
 		hook()
@@ -164,4 +189,3 @@ func (ru *runner) getBlock(h *History, op *Op, oi int) bool {
 	return true
 }
 
-var _ = chainhash.Hash{}
